@@ -264,11 +264,13 @@ func typeCheck(filename string, content []byte) result {
 
 // time limit: base + perKB per 1024 bytes, times scale.
 func limitFor(ep string, n int, scale float64) time.Duration {
+	// a hang detector, deliberately generous per byte (10 KiB/s) so that slow-but-linear work (deep recursion
+	// costs tens of microseconds per level) passes; super-linear growth is measured separately by the check
 	base := 2 * time.Second
-	perKB := 20 * time.Millisecond // 50 KiB/s: two to three orders of magnitude below normal speed
+	perKB := 100 * time.Millisecond
 	if strings.HasPrefix(ep, "load") {
 		base = 8 * time.Second // loads and type-checks the runtime package first (0.2-0.5 s)
-		perKB = 60 * time.Millisecond
+		perKB = 200 * time.Millisecond
 	}
 	d := base + time.Duration(n/1024+1)*perKB
 	return time.Duration(float64(d) * scale)
